@@ -258,11 +258,14 @@ Fixpoint str_uint (s : str) : Decimal.uint :=
 Definition int_of_tok (neg : bool) (ds : str) : Z :=
   Z.of_int (if neg then Decimal.Neg (str_uint ds) else Decimal.Pos (str_uint ds)).
 
+Definition scan_minus (s : str) : bool * str :=
+  match s with
+  | c :: r => if c =? 45 then (true, r) else (false, s)
+  | [] => (false, [])
+  end.
+
 Definition scan_number (s : str) : option (jv * str) :=
-  let '(neg, s1) := match s with
-                    | c :: r => if c =? 45 then (true, r) else (false, s)
-                    | [] => (false, s)
-                    end in
+  let (neg, s1) := scan_minus s in
   match scan_intpart s1 with
   | None => None
   | Some (ip, s2) =>
